@@ -79,9 +79,6 @@ DEFS = [
      [r"cmp:<:field0:0"]),
     (r"bifs::core::substring_(after|before)$", r"(assert\|Overflow:Add|call\|.*index)",
      "index is the byte offset returned by str::find for match_string: index and index + match_string.len() are char boundaries inside input_string", []),
-    (r"bifs::core::time_[34]$", r"call\|core::option::Option::<>::unwrap",
-     "hour/minute/second passed the (0..24)/(0..60) range tests; to_u8() goes through the infallible From<&FeelNumber> for u8 (always Some); nanoseconds = trunc(fract(second) * 10^9) is an integer in [0, 10^9) whose plain text parses as u64",
-     [r"call:contains=True"]),
     # ---------------------------------------------------------------- feel-number
     (r"number::scientific_to_plain$", r"(call\|core::(option::Option|result::Result)::<>::unwrap|assert\|Overflow:Sub)",
      "the argument is the output of decQuadToString: in the branch guarded by contains(\"E+\") / contains(\"E-\") the text is <coefficient>E<sign><digits>, split() yields two parts, the exponent is a decimal integer, and to-scientific-string puts at most `exponent` digits after the point (General Decimal Arithmetic spec)",
